@@ -15,6 +15,7 @@ package main
 
 import (
 	"go/ast"
+	"go/token"
 	"go/types"
 	"strings"
 )
@@ -36,6 +37,7 @@ func isAnalysisNodeType(t types.Type) bool {
 
 func mutAnRule(w *World, r *Result, only func(rel string) bool) int {
 	n := 0
+	shiftSkipRule(w, r, only)
 	for _, fi := range sortedFuncs(w) {
 		rel := w.Rel(fi.Obj.Pkg())
 		if fi.Decl.Body == nil || !strings.HasPrefix(rel, "generator") || (only != nil && !only(rel)) {
@@ -209,4 +211,92 @@ func freshLocal(info *types.Info, fi *FuncInfo, e ast.Expr) bool {
 		}
 	}
 	return true
+}
+
+// shiftSkipRule (SHIFT-SKIP): removing the element at the loop index of a counted loop (`xs = append(xs[:i],
+// xs[i+1:]...)`, slices.Delete(xs, i, i+1)) moves the next element into position i; unless the index is stepped back
+// (or the loop is left), the increment skips that element. Obligations: every such removal inside `for i …; i++`.
+func shiftSkipRule(w *World, r *Result, only func(rel string) bool) int {
+	n := 0
+	for _, fi := range sortedFuncs(w) {
+		rel := w.Rel(fi.Obj.Pkg())
+		if fi.Decl.Body == nil || (only != nil && !only(rel)) {
+			continue
+		}
+		info := fi.Pkg.TypesInfo
+		ast.Inspect(fi.Decl.Body, func(x ast.Node) bool {
+			loop, ok := x.(*ast.ForStmt)
+			if !ok || loop.Post == nil {
+				return true
+			}
+			inc, ok := loop.Post.(*ast.IncDecStmt)
+			if !ok || inc.Tok != token.INC || identOf(inc.X) == nil {
+				return true
+			}
+			idx := objOf(info, identOf(inc.X))
+			isIdx := func(e ast.Expr) bool { id := identOf(e); return id != nil && objOf(info, id) == idx }
+			var visit func(list []ast.Stmt)
+			visit = func(list []ast.Stmt) {
+				for k, st := range list {
+					switch s := st.(type) {
+					case *ast.IfStmt:
+						visit(s.Body.List)
+						if eb, ok := s.Else.(*ast.BlockStmt); ok {
+							visit(eb.List)
+						}
+					case *ast.BlockStmt:
+						visit(s.List)
+					case *ast.AssignStmt:
+						if len(s.Lhs) != 1 || len(s.Rhs) != 1 {
+							continue
+						}
+						call, ok := s.Rhs[0].(*ast.CallExpr)
+						if !ok {
+							continue
+						}
+						removes := false
+						target := es(s.Lhs[0])
+						if isBuiltinCall(info, call, "append") && len(call.Args) == 2 && call.Ellipsis.IsValid() {
+							a0, ok0 := ast.Unparen(call.Args[0]).(*ast.SliceExpr)
+							a1, ok1 := ast.Unparen(call.Args[1]).(*ast.SliceExpr)
+							if ok0 && ok1 && es(a0.X) == target && es(a1.X) == target && a0.High != nil && isIdx(a0.High) && a1.Low != nil {
+								if be, ok := ast.Unparen(a1.Low).(*ast.BinaryExpr); ok && be.Op == token.ADD && isIdx(be.X) {
+									removes = true
+								}
+							}
+						}
+						if fullName(calleeOf(info, call)) == "slices.Delete" && len(call.Args) == 3 && es(call.Args[0]) == target && isIdx(call.Args[1]) {
+							removes = true
+						}
+						if !removes {
+							continue
+						}
+						n++
+						// stepped back, or the loop is left, in the rest of this block
+						ok2 := false
+						for _, later := range list[k+1:] {
+							switch l := later.(type) {
+							case *ast.IncDecStmt:
+								if l.Tok == token.DEC && isIdx(l.X) {
+									ok2 = true
+								}
+							case *ast.BranchStmt:
+								if l.Tok == token.BREAK {
+									ok2 = true
+								}
+							case *ast.ReturnStmt:
+								ok2 = true
+							}
+						}
+						r.cond(ok2, "SHIFT-SKIP", fi.Name, "removal at the loop index: "+es(s.Lhs[0])+" = "+es(s.Rhs[0]), w.Pos(s.Pos()),
+							"the index is stepped back (or the loop left) after the removal",
+							"the element at the loop index is removed and the loop goes on with i++: the element that slid into position "+identOf(inc.X).Name+" is never examined (two adjacent elements to remove: the second one stays)")
+					}
+				}
+			}
+			visit(loop.Body.List)
+			return true
+		})
+	}
+	return n
 }
